@@ -104,7 +104,9 @@ NAMES = ["John Doe", "Doe, John", "Smith, Jane (Sales)", "O'Brien", "Dr. A. \"Ac
          "Müller, Jürgen", "Иван Петров", "山田 太郎", "Team <core>", "x@y (not an address)", "semi;colon", "",
          # quotation marks, apostrophes and other punctuation at the very start / end of the display name
          "'t Hooft, Gerard", "Dwayne \"The Rock\"", "Chris O'", "\"Quoted\"", "'single'", "(paren) name", "name (paren)", "Back\\slash\\",
-         "dot.", ".dot", "\"", "O'Neil 'Jr'"]
+         "dot.", ".dot", "\"", "O'Neil 'Jr'",
+         # not in Unicode NFC: decomposed accents, ANGSTROM SIGN, CJK compatibility ideograph
+         "Ame\u0301lie Poulain", "\u212bke \u212bngstro\u0308m", "\ufa1e\u7530 \u592a\u90ce"]
 LOCALS = ["john", "jane.smith", "bob+tag", "o.brien", "info", "no-reply", "a", "first.last"]
 DOMAINS = ["example.com", "mail.example.org", "x.test", "sub.domain.example.net"]
 ZONES = [0, 60, 120, -300, 330, 345, -210, 540, 765, -720]
